@@ -65,3 +65,77 @@ CLAIMED.update({
         technique="Lean 4 proof (list induction, loop invariants on raw buffers with checked accesses) + differential correspondence",
         design="7/C19"),
 })
+
+CLAIMED.update({
+    "C03": dict(
+        text="Lean 4 theorems over the pointer-machine model of qtreetbl_getnext (node identifiers, 8-bit epoch stamps, "
+             "parent pointers written during the descent, reset with wrap-around handling): under EpochInv (every stamp "
+             "<= the table's epoch, identifiers distinct) a walk from a zero cursor returns exactly the in-order key/value "
+             "sequence - every key once, ascending under a search order - then the end, never dangling, within the fuel; "
+             "EpochInv is preserved by put, remove, clear, complete walks, walks abandoned after any number of steps, "
+             "nearest searches with continuations and by the epoch reset INCLUDING wrap-around (epoch_inv_step), hence "
+             "traversal_any_history: after ANY history a walk returns exactly the contents. Correspondence: every state "
+             "reachable with a bounded key universe followed by abandoned walk/search/full walk, >256 traversal starts "
+             "crossing the wrap-around, deterministic wrap probes, random histories; stamps and parent pointers of every "
+             "node compared after every call.",
+        note="trusted: Lean kernel, hand transcription (validated on explored histories). traversal_any_history is "
+             "conditional on the history's put/remove calls returning ok, which C01/C02 prove separately under the table "
+             "invariant. A cursor kept across a modification or across an epoch wrap-around is outside the property. "
+             "One defect of the pinned tree repaired first (epoch wrap).",
+        technique="Lean 4 proof (zipper invariant over the pointer machine, induction on subtrees and histories) + differential correspondence",
+        design="7/C03"),
+    "C04": dict(
+        text="Lean 4 theorems over the model of qtreetbl_find_nearest (descent writing parent pointers with the root's "
+             "cleared first, climb while the probe is below the node): with distinct identifiers alone the search never "
+             "faults and terminates within height+2 steps (every pointer followed was written by this descent); under a "
+             "search order it returns exactly the floor entry (equal key, else greatest smaller, else the minimum; "
+             "not-found iff empty); the answer depends only on the in-order contents (history independence); when no walk "
+             "was left unfinished, continuing with getnext from the returned cursor visits every key exactly once and "
+             "ends. Correspondence: every probe (each key, each gap, below min, above max) against every state reachable "
+             "with a bounded universe and after random histories incl. abandoned walks, under a per-call watchdog.",
+        note="trusted: Lean kernel, hand transcription (validated on explored histories), watchdog for wall-clock "
+             "termination of the compiled code. One defect of the pinned tree repaired first (stale root parent link).",
+        technique="Lean 4 proof (BST path reasoning over a zipper, fuel bound) + differential correspondence",
+        design="7/C04"),
+    "C11": dict(
+        text="The logic part of memory safety is a set of Lean theorems: every model function whose C original can "
+             "dereference NULL, follow a dangling pointer, index out of bounds, loop forever or memcpy overlapping ranges "
+             "returns Except Fault, and is proved to return ok for ALL histories/inputs (tree put/remove/walk/nearest, "
+             "list walk and index walk, vector block move with the primitive the current source calls, in-place decoders, "
+             "hash reads, string writes - audited as obligations of this check), plus the allocation ledger facts. "
+             "Machine-level safety is sampled: every stream of every container runs on an ASan+UBSan+LSan build with "
+             "exactly sized caller buffers, the library's allocator traffic is counted (objcopy-renamed malloc family) "
+             "and the live-block count is compared with the model's ledger after EVERY operation and must be 0 after "
+             "release.",
+        note="PARTIAL by nature: Lean proves nothing about the machine code; sanitizers sample the explored histories. "
+             "Ledger streams currently cover the tree table; the other containers' leak freedom rests on LeakSanitizer "
+             "at the end of each of their correspondence runs. Static hash table guard zones: see C07.",
+        technique="Lean 4 proof of fault-freedom obligations + sanitizer build + allocation-ledger correspondence",
+        design="7/C11"),
+    "C12": dict(
+        text="Byte-exactness for all contents is a corollary of the refinement theorems (stated over arbitrary byte lists "
+             "with lengths: embedded/trailing NUL, zero-filled elements) plus stored_bytes_exact; independence of caller "
+             "buffers and of returned copies is an address-level fact tied by correspondence: harnesses scribble and free "
+             "the caller's key/value buffers right after every put, keep every copy handed out by a copying accessor with "
+             "a private duplicate and re-compare after later replace/remove/clear and after the container is released "
+             "(a retained internal pointer is a use-after-free under ASan).",
+        note="PARTIAL: the independence clause is model-by-type + correspondence, not a theorem about addresses (a block-"
+             "heap model was planned in DESIGN.md and not built). Retained-copy streams currently cover the tree table; "
+             "list/vector/hash-table harnesses release caller buffers after each call under ASan.",
+        technique="Lean 4 refinement corollaries + scribble/retained-copy correspondence under ASan",
+        design="7/C12"),
+    "C15": dict(
+        text="Lean 4 theorems for the tree table under ANY allocation plan (which attempt fails): put returns without "
+             "fault, the table invariant (order, LLRB shape, count) holds, and a reported failure leaves contents and count "
+             "exactly as before (a failed insertion only restructures); copying get returns nothing or the stored value; "
+             "remove needs no allocation; equal contents imply equal live blocks (no leak). The plan forms mirror the "
+             "order of calloc/qmemdup calls and are tied to the code by fault enumeration: for every allocating operation "
+             "x prefix states x failure at the 1st..4th allocation (single, and all-from-k) the C call is run with exactly "
+             "that allocation failing (objcopy-renamed allocator), and result, allocation count, full state and live "
+             "blocks must equal the model's. Lockable containers under allocation failure: see C14's enumeration.",
+        note="PARTIAL: theorems cover the tree table; list/vector/hash-table/list-table allocation failure is exercised by "
+             "the C14 fault enumeration (every public function x every allocation position: returns, lock released) but "
+             "not yet against Lean failure-atomicity models. Five defects of the pinned tree repaired first.",
+        technique="Lean 4 proof (failure atomicity via the generalised insertion invariant) + fault-enumeration correspondence",
+        design="7/C15"),
+})
